@@ -256,12 +256,14 @@ Proof.
               p_log (fst (fold_left F ids (q, rem))) = p_log q).
   { induction ids0 as [|id r IH]; intros q rem; cbn [fold_left].
     - exists []. rewrite app_nil_r. split; [reflexivity|]. split; [apply Rem_nil | reflexivity].
-    - unfold F at 2. destruct (amem N.eqb id (p_txmap q)).
+    - destruct (F (q, rem) id) as [q1 rem1] eqn:EF. unfold F in EF.
+      destruct (amem N.eqb id (p_txmap q)).
       + destruct (remove_subtree_and_update (with_txmap q (adel N.eqb id (p_txmap q))) id) as [p' r'] eqn:R.
+        inversion EF; subst q1 rem1.
         destruct (rsu_frame _ _ _ _ R) as [R1 [_ [_ [R4 _]]]]. cbn [with_txmap p_g p_log] in R1, R4.
         destruct (IH p' (rem ++ r')) as [more [M1 [M2 M3]]]. exists (r' ++ more).
         split; [rewrite M1, <- app_assoc; reflexivity|]. split; [eapply Rem_app; eassumption | congruence].
-      + apply IH. }
+      + inversion EF; subst q1 rem1. apply IH. }
   destruct (G ids p []) as [more [M1 [M2 M3]]]. destruct (fold_left F ids (p, [])) as [p1 removed].
   cbn [fst snd app] in *. subst removed. exists more. unfold update_stats, add_log. cbn [p_log p_g].
   split; [rewrite M3; reflexivity | exact M2].
